@@ -348,6 +348,45 @@ Proof.
     rewrite nassoc_ndel_other by exact Hne. apply (c_pool_conn s HC sid0 H0).
 Qed.
 
+Lemma inv_pub : forall c s sid space topic claim relayed wf, Inv s ->
+  Inv (fst (handle_pub c s sid space topic claim relayed wf)).
+Proof.
+  intros c s sid space topic claim relayed wf HI.
+  destruct (handle_pub_state c s sid space topic claim relayed wf) as [rate E]. rewrite E.
+  destruct HI as [HC HT]. split; [apply (core_irrel s _ _ _ HC)|exact HT].
+Qed.
+
+(* the publisher's stream goes away while its Publish is handled: the state is that of "removal ; Publish" or of
+   "Publish ; removal", the output is that of the Publish *)
+Lemma pub_mid_fst : forall c s sid space topic claim relayed wf,
+  fst (handle_pub_mid c s sid space topic claim relayed wf)
+  = if pub_reaches_lookup c s sid space topic claim relayed wf
+    then fst (handle_pub c (pool_remove s sid) sid space topic claim relayed wf)
+    else pool_remove (fst (handle_pub c s sid space topic claim relayed wf)) sid.
+Proof.
+  intros. unfold handle_pub_mid. destruct (pub_reaches_lookup c s sid space topic claim relayed wf); [reflexivity|].
+  destruct (handle_pub c s sid space topic claim relayed wf) as [s2 o]. reflexivity.
+Qed.
+
+Lemma pub_mid_snd : forall c s sid space topic claim relayed wf,
+  snd (handle_pub_mid c s sid space topic claim relayed wf)
+  = if pub_reaches_lookup c s sid space topic claim relayed wf
+    then snd (handle_pub c (pool_remove s sid) sid space topic claim relayed wf)
+    else snd (handle_pub c s sid space topic claim relayed wf).
+Proof.
+  intros. unfold handle_pub_mid. destruct (pub_reaches_lookup c s sid space topic claim relayed wf); [reflexivity|].
+  destruct (handle_pub c s sid space topic claim relayed wf) as [s2 o]. reflexivity.
+Qed.
+
+Lemma inv_pub_mid : forall c s sid space topic claim relayed wf, Inv s ->
+  Inv (fst (handle_pub_mid c s sid space topic claim relayed wf)).
+Proof.
+  intros c s sid space topic claim relayed wf HI. rewrite pub_mid_fst.
+  destruct (pub_reaches_lookup c s sid space topic claim relayed wf).
+  - apply inv_pub. apply (inv_pool_remove s sid HI).
+  - apply inv_pool_remove. apply inv_pub. exact HI.
+Qed.
+
 Lemma inv_step : forall c s e, Inv s ->
   (forall sid acct, e = EOpen sid acct -> nassoc sid (sv_conns s) = None) ->
   Inv (fst (svc_step c s e)).
@@ -367,4 +406,5 @@ Proof.
   - exact HI.
   - fold (handle_sub_mid c s sid victim space pats). rewrite (proj1 (mid_state c s sid victim space pats HI)).
     apply inv_pool_remove. apply inv_mid_pre. exact HI.
+  - apply inv_pub_mid. exact HI.
 Qed.
